@@ -891,3 +891,40 @@ def _update_public(name, is_all):
 
 _update = _update_public("update", False)
 _update_all = _update_public("update_all", True)
+
+
+# ------------------------------------------------------------------------------------------ closing (C04: "once the database is closed")
+def _closed_post(c):
+    return [("marked_closed", z3.Not(c.self.t["_open"].t))] + storage_unchanged(c) + dbinv(c.self)
+
+
+@contract(_TF + "close")
+class _close(Contract):
+    """close marks the database closed and closes the storage - contents, index and invariant as they were; a failing close reaches the caller"""
+    params = dict(self=DB)
+    modifies = ("_open",)
+    raises = {"WriteFault": staticmethod(lambda c: dict(when=z3.BoolVal(True), exact=False, ensures=lambda c2: dbinv(c2.self) + storage_unchanged(c2)))}
+    requires = staticmethod(lambda c: dbinv(c.self))
+    ensures = staticmethod(_closed_post)
+
+
+@contract(_TF + "__exit__")
+class _exit(Contract):
+    """leaving the context closes an open database exactly once and returns None (exceptions are not suppressed)"""
+    params = dict(self=DB, args=TU("Opaque"))
+    modifies = ("_open",)
+    raises = _close.raises
+    requires = staticmethod(lambda c: dbinv(c.self))
+    ensures = staticmethod(_closed_post)
+
+
+@contract(_TF + "__enter__")
+class _enter(Contract):
+    params = dict(self=DB)
+    ret = DB
+    requires = staticmethod(lambda c: dbinv(c.self))
+
+    @staticmethod
+    def ensures(c):
+        return [("returns_the_database", z3.And(c.result.t["_open"].t == c.self.t["_open"].t, c.result.t["_storage"].t["items"].t == c.self.t["_storage"].t["items"].t,
+                                                c.result.t["_index"].t["_valid"].t == c.self.t["_index"].t["_valid"].t))] + dbinv(c.result)
